@@ -184,6 +184,17 @@ package atree
 
 //@ # FastCommit: the encoder goroutines are outside the sequential subset. Verification starts at the apply loop (loop 4);
 //@ # what the concurrent phase is assumed to have produced is stated in the assume clause (A7).
+//@ # first view of FastCommit: the sequential prefix up to the first channel operation. The job queue has a slot for every key, so
+//@ # filling it never blocks (the encoders are started only afterwards).
+//@ func (s *PersistentSlabStorage) FastCommit@prefix(numWorkers) (err)  serves C03 C04 C14
+//@   option stop-at-concurrency true
+//@   requires s.baseStorage != nil
+//@   atcut[C14] cap(jobs) == len(keysWithOwners) && len(keysWithOwners) >= 1
+//@   # no register is written or deleted, and nothing leaves the write set, before the apply phase (which issues all of them in key order)
+//@   atcut[C03 C04 C14] sameLedger() && s.deltas == old(s.deltas) && s.cache == old(s.cache)
+//@   loop 1: invariant sameLedger() && s.deltas == old(s.deltas) && s.cache == old(s.cache)
+//@   modifies s.cache, s.deltas, ghost.ledgerHas, ghost.ledgerVal, ghost.wlen, ghost.wlogID, ghost.wlogOp, alloc
+
 //@ func (s *PersistentSlabStorage) FastCommit(numWorkers) (err)  serves C03 C04 C14 C15
 //@   option start-at-loop 4
 //@   assume invCoh(s) && s.baseStorage != nil && ownedKeysOf(s, keysWithOwners) &&
@@ -260,6 +271,10 @@ package atree
 //@   ensures[C15] invCoh(s)
 //@   ensures[C03] forall id SlabID :: id.address == AddressUndefined ==> untouched(s, id)
 //@   ensures[C14] err != nil ==> categorised(err)
+//@   # what the sequential prefix hands to the concurrent phase: the result queue has a slot for every job, so an encoder never blocks
+//@   # on its send - also not after the apply loop has stopped consuming because of a ledger fault (the error return waits for the
+//@   # encoders to finish); one job per modified slab
+//@   atcut[C14] cap(results) == modifiedSlabCount && cap(jobs) == modifiedSlabCount && modifiedSlabCount == len(modifiedSlabIDs) && modifiedSlabCount >= 2
 //@   modifies s.cache, s.deltas, ghost.ledgerHas, ghost.ledgerVal, ghost.wlen, ghost.wlogID, ghost.wlogOp, alloc
 //@   loop 1: invariant 0 <= modifiedSlabCount && 0 <= deletedSlabCount && modifiedSlabCount + deletedSlabCount <= cntSeen(seen) && cntSeen(seen) <= len(slabIDsWithOwner) &&
 //@        len(slabIDsWithOwner) == len(s.deltas) &&
